@@ -147,6 +147,16 @@ CLAIMED = {
         "Theorems: linear and quadratic solvers are sound and complete with multiplicities; the cubic (all branches incl. Cardano) and quartic (all branches incl. Euler's method, for every choice of resolvent roots) closed forms factor the polynomial identically, so every returned member is a root and all roots are returned; solve_poly dispatch is exact; solve_rational returns every non-pole zero and only zeros of the numerator (pole exclusion refuted for irrational poles = known finding, proved when all roots are rational); linsolve returns the exact solution or reports singularity, never out of bounds. Which complex branch each radical denotes, solve_trig and restricted domains are outside the theorems (oracle: exact substitution where it reduces to a number, numeric residual otherwise - testing, labelled).",
         "Trusted: Coq kernel; extraction; hand transcription validated by correspondence of result sets; known findings (listed): solve_trig quadrant via atan2, irrational poles not removed by set_complement.",
         "7 (C30)"),
+    "C31": (
+        "Rocq proof (axiom-free formal power series ring over Q: Cauchy product, congruence mod x^n, derivative, integral, ODE uniqueness) over an executable model of the SeriesBase recurrences and the SeriesVisitor dispatch + exact correspondence of coefficient maps",
+        "Unbounded theorems (all precisions below 2^31, all rational series): truncated mul and pow; series_invert along step_list inverts modulo x^prec; nthroot; log, atan, atanh, exp, tan, tanh, asin, asinh, sin/cos, sinh/cosh, lambertw satisfy their defining initial value problems modulo x^(prec-1) (all branches incl. fast paths and Newton loops); such IVPs have at most one solution, so the coefficients equal those of any formal solution; compositions; the visitor is sound on the guarded fragment. The bridge from formal to analytic Taylor coefficients is stated, not formalised. cot/csc/sec/acos/series_reverse, general powers and symbolic constants are covered by correspondence and an independent exact Maclaurin oracle in the driver only.",
+        "Trusted: Coq kernel; extraction; hand transcription validated by exact correspondence; known findings (listed): precision loss when dividing by a series without constant term, nthroot of the zero series.",
+        "7 (C31)"),
+    "C32": (
+        "Rocq proof over an executable model of ntheory.cpp on top of the mp_* primitives (both the GMP-documented meaning and the Boost reimplementation) + exhaustive small-range correspondence in the GMP and Boost builds",
+        "Unbounded theorems for all integers in the domain: both division conventions (and zero divisor throws), gcd/lcm, gcd_ext (termination, Bezout), mod_inverse, crt on positive moduli (solution iff compatible, unique mod lcm; single-modulus unreduced result refuted = known finding), powermod incl. negative exponents, factorial, binomial, fibonacci/lucas, trial-division primality = Znumtheory.prime, factorisation and prime_factors, totient, mobius, mertens, quadratic_residues, polygonal numbers and roots, perfect-power decomposition, integer roots. Proved only by complete evaluation over explicit finite ranges stated in the theorems: carmichael, multiplicative_order, primitive_root, legendre/jacobi/kronecker, is_quad_residue, is_nth_residue, Lehman soundness, harmonic, bernoulli. nthroot_mod(_list), rational powermod, primitive_root_list, Pollard methods, nextprime, primepi, primorial: oracle only.",
+        "Trusted: Coq kernel (vm_compute for the finite-range sweeps); extraction; GMP as external; known findings (listed, 7 keys): crt single modulus unreduced, is_nth_residue negative a / zero exponent, Lehman misses factors, nthroot_mod with negative a and modulo 2^k, Boost is_quad_residue with negative p.",
+        "7 (C32)"),
     "C33": (
         "Rocq proof over an executable state-machine model of Sieve (32-bit arithmetic, observable out-of-range accesses) + correspondence of histories against the rebuilt library",
         "Unbounded theorems (every history, every limit < 2^31, every sieve size 1..2^15 KB): no array access leaves its array, every loop terminates, generate_primes returns exactly the primes up to the limit in increasing order, iterators return the prime sequence without gaps or repeats. The model is tied to the code by running generated histories on the extracted model and on the library rebuilt from /repo and comparing every output.",
